@@ -3,10 +3,10 @@
    Only statements, closed by [exact lemma], with Print Assumptions beneath. *)
 From Coq Require Import String List NArith ZArith Bool Lia ZifyN ZifyNat ZifyBool.
 From J5V.lib Require Import Outcome Json JsonPrint Base64 Civil Decimal.
-From J5V.model Require Import CodecTypes CodecEnc CodecEncSpec CodecEncDec.
+From J5V.model Require Import CodecTypes CodecEnc CodecEncSpec CodecEncDec CodecFloatInt.
 From J5V.model Require CodecDecScalar CodecDec CodecDecTree.
 From J5V.proofs Require CodecDecTime CodecDecDecimal.
-From J5V.proofs Require Import CodecEncProofs CodecEncDecProofs CodecEncTotal CodecEncDecTie CodecEncLex CodecEncInner CodecEncRep.
+From J5V.proofs Require Import CodecEncProofs CodecEncDecProofs CodecEncTotal CodecEncDecTie CodecEncLex CodecEncInner CodecEncRep CodecEncRepTie CodecFloatIntProofs CodecFloatNonFinite.
 Import ListNotations.
 Local Open Scope N_scope.
 
@@ -367,6 +367,40 @@ Example C01_bytes_scalars_example :
   msg_get 3 sc_back = Some (VMsg [(1, VStr [49; 46; 53])]).
 Proof. repeat split; vm_compute; reflexivity. Qed.
 
+(* ---------------------------------------------------------------- the float laws on a sub-domain
+   float_text_ok and float_roundtrip are premises of the theorems above (laws of strconv, exercised on
+   every run, never proved of strconv).  On the sub-domain of integer-valued floats of magnitude below
+   10^5 (both widths, both signs, -0 included) they are PROVED for a model of FormatFloat(v,'g',-1,w) /
+   ParseFloat (model/CodecFloatInt.v: such a float prints as its decimal digits, the literal parses to
+   the exact float), and that model is compared with strconv on the sub-domain on every run (stream
+   CFloatInt): the pattern is finite, the text is a JSON number, and it reads back to the same bits. *)
+Theorem C01_float_laws_on_small_integers : forall is32 neg n, (n < small_bound)%N ->
+  let bits := float_of_int is32 neg n in
+  float_finite is32 bits = true /\
+  exists txt, fmt_small is32 bits = Some txt /\ valid_number txt = true /\ parse_small is32 txt = Some bits.
+Proof. exact float_laws_small. Qed.
+Print Assumptions C01_float_laws_on_small_integers.
+
+(* ---------------------------------------------------------------- non-finite floats, width by width
+   Outside the property's quantifier (finite floats), inside the codec's contract since /repo 5e4d94d:
+   NaN / +Inf / -Inf are written as the quoted words of the protobuf JSON mapping and read back by the
+   decoder's string arm with ParseFloat at the width of the field.  For every non-finite pattern of
+   either width: an infinity reads back as the SAME pattern, a NaN (any payload) as strconv's NaN.
+   Premise: ParseFloat's answers for the three words at each width (taken from strconv on every run by
+   the literal tables of the non-finite-float stream).  A decoder that refuses "Infinity" for a 32-bit
+   field (seeded change C01-H) fails this stream's oracle and the model/implementation comparison. *)
+Theorem C01_nonfinite_float_roundtrip :
+  forall fmt_float parse_float parse_time, nonfinite_parse_ok parse_float ->
+  forall is32 bits, (bits < ftop is32)%N -> float_finite is32 bits = false ->
+    exists J, enc_scalar fmt_float (fkind is32) (VFloat bits) = Ok (print J) /\ wfb J = true /\
+      exists b', dec_scalar parse_float parse_time (fkind is32) J = Ok (Some (VFloat b')) /\
+                 (float_is_inf is32 bits = true -> b' = bits) /\
+                 (float_is_nan is32 bits = true -> float_is_nan is32 b' = true).
+Proof. exact nonfinite_float_roundtrip. Qed.
+Print Assumptions C01_nonfinite_float_roundtrip.
+Example C01_nonfinite_premise_satisfiable : nonfinite_parse_ok inst_nf.
+Proof. exact nonfinite_parse_satisfiable. Qed.
+
 (* ---------------------------------------------------------------- the preconditions, decided *)
 (* EnumSchema.OptionByName inverts OptionByNumber on every enum whose option names are distinct:
    the enum round trip is derived from a schema condition (part of env_static_b), not assumed per
@@ -406,6 +440,19 @@ Theorem C01_full_statement_decided :
                     equiv_root any_inner print any_back env root m m').
 Proof. exact codec_full_decided. Qed.
 Print Assumptions C01_full_statement_decided.
+
+(* ... and over the decoder family's byte-level, Go-tied model on the encoder's text (default codec):
+   the preconditions on schema and message are the same two booleans *)
+Theorem C01_full_statement_bytes_decided :
+  forall fmt_float any_inner orc env,
+    float_text_ok fmt_float -> orc_float_ok fmt_float orc -> orc_time_ok orc -> orc_decimal_ok orc ->
+    inner_ok any_inner -> env_static_b env = true ->
+    forall fuel root m, rep_root_b any_inner print None env fuel root m = true ->
+      exists txt J, encode fmt_float any_inner env root m = Ok txt /\ txt = print J /\ wfb J = true /\
+        (CodecDecTree.jdepth J <= CodecDec.max_scan_depth ->
+         exists m', CodecDec.decode_bytes orc env root txt = Ok m' /\ equiv_root any_inner raw_dec None env root m m').
+Proof. exact codec_full_bytes_decided. Qed.
+Print Assumptions C01_full_statement_bytes_decided.
 
 (* The same with the inner Any encoding being the encoder itself on the payload message of a
    registered type (resolver reg and proto.Unmarshal abstract), nested n levels: inner_ok is no
